@@ -126,6 +126,8 @@ def gen_tasks(ctx, rng, n_cfg, n_beh, make_groups, maxcalls, faults, hyper_keys,
                 for g2 in dd["groups"][1:]:
                     if g2.get("shared_hyper"):          # groups that share one learning-rate / weight-decay table keep sharing it
                         g2["lr"], g2["wd"] = list(dd["groups"][0]["lr"]), list(dd["groups"][0]["wd"])
+            if per_beh_redraw:
+                family.draw_grad_mode(rng, dd)
             family.draw_scales(rng, dd)
             tasks.append((dd, beh, {"numeric": numeric}))
     return tasks
